@@ -182,6 +182,45 @@ example :
         { total := ⟨300, 4⟩, taxes := [{ cat := "VAT", country := "", key := "", percent := none, surcharge := none, ext := "", retained := false }] } ]).map
       (fun ct => ct.rates.map (·.base)) = [[⟨15000, 4⟩, ⟨700, 4⟩, ⟨300, 4⟩]] := by decide
 
+/-- **the rate key takes no part in grouping**: whatever rate keys the group and the combo carry,
+`RateTotal.matches` answers the same — groups are distinguished by extensions, country, percentage and
+surcharge (`matches_iff_same_key`), never by the key the percentage was asked for with. -/
+theorem matches_ignores_rate_key (rt : RateTotal) (cb : Combo) (k k' : String) :
+    rtMatches { rt with key := k } { cb with key := k' } = rtMatches rt cb := rfl
+
+/-- hence a group and a combo with different percentages never match, whatever their rate keys — in
+particular under the SAME rate key (a key whose percentage the issuer supplies; satisfiable: the
+`example` below) … -/
+theorem same_rate_key_other_percentage_no_match (rt : RateTotal) (cb : Combo) (p q : Pct)
+    (hp : rt.percent = some p) (hq : cb.percent = some q)
+    (hne : p.amount.toRat ≠ q.amount.toRat) : rtMatches rt cb = false := by
+  cases h : rtMatches rt cb with
+  | false => rfl
+  | true =>
+    have hk := (rtMatches_iff rt cb).1 h
+    simp only [rtKey, comboKey, hp, hq, Option.map_some, Prod.mk.injEq, Option.some.injEq] at hk
+    exact absurd hk.2.2.1 hne
+
+/-- … while different rate keys with one percentage do (same extensions and country). -/
+theorem other_rate_key_same_percentage_match (rt : RateTotal) (cb : Combo)
+    (h : rtKey rt = comboKey cb) : rtMatches rt cb = true := (rtMatches_iff rt cb).2 h
+
+/-- non-vacuity: rate key `other` at 5 % and at 12 % on two rows, `other` at 12.0 % on a third and a
+key-less 5 % on a fourth: two groups, 5 % and 12 %, each with two rows -/
+example :
+    (baseRateTotals exactOps .precise 2
+      [ { total := ⟨10000, 4⟩, taxes := [{ cat := "VAT", country := "", key := "other", percent := some ⟨⟨5, 2⟩⟩, surcharge := none, ext := "", retained := false }] },
+        { total := ⟨5000, 4⟩, taxes := [{ cat := "VAT", country := "", key := "other", percent := some ⟨⟨12, 2⟩⟩, surcharge := none, ext := "", retained := false }] },
+        { total := ⟨700, 4⟩, taxes := [{ cat := "VAT", country := "", key := "other", percent := some ⟨⟨120, 3⟩⟩, surcharge := none, ext := "", retained := false }] },
+        { total := ⟨300, 4⟩, taxes := [{ cat := "VAT", country := "", key := "", percent := some ⟨⟨5, 2⟩⟩, surcharge := none, ext := "", retained := false }] } ]).map
+      (fun ct => ct.rates.map (·.base)) = [[⟨10300, 4⟩, ⟨5700, 4⟩]] := by decide
+
+example : ∃ (rt : RateTotal) (cb : Combo) (p q : Pct), rt.key = cb.key ∧ rt.key ≠ "" ∧ rt.percent = some p ∧
+    cb.percent = some q ∧ p.amount.toRat ≠ q.amount.toRat :=
+  ⟨{ key := "other", country := "", ext := "", base := ⟨0, 2⟩, percent := some ⟨⟨5, 2⟩⟩, surcharge := none, amount := ⟨0, 2⟩ },
+   { cat := "VAT", country := "", key := "other", percent := some ⟨⟨12, 2⟩⟩, surcharge := none, ext := "", retained := false },
+   ⟨⟨5, 2⟩⟩, ⟨⟨12, 2⟩⟩, rfl, by decide, rfl, rfl, by simp [Amount.toRat, pow10]⟩
+
 /-- **tax_summary_spec** (capstone): for EVERY document the model calculates, under
 either rounding rule, the executable oracle `Spec.C02.summaryOk` — the whole
 statement of C02, and the function that judges the output of the real
